@@ -324,4 +324,40 @@ theorem default_prune_is_the_simulations {α : Type} (fch : List α) (q : Nat) (
     shouldKeepCommit (!fch.isEmpty) (some q) (some mk) (q :: rest).length wasMerge isDeg {}
       = !(fch.isEmpty && rest.isEmpty) := Bridge.default_prune_matches_fstep fch q rest mk wasMerge isDeg
 
+
+/-- **At the end of every commit of the byte-level main loop** the parent information the prune decision and the alias
+    are computed from is that of the simulation: first parent and kept count are head and length of the de-duplicated
+    canonical emitted marks of the commit's parents — for every filter state, whatever was read before. -/
+theorem commit_end_parents_are_the_simulations (s : FState)
+    (hne : (parentsOf s.segs.reverse).isEmpty = false) (hm : Bridge.AllMarked (parentsOf s.segs.reverse)) :
+    let ks := Sim.dedupAux [] (((Bridge.marksOf (parentsOf s.segs.reverse)).map (resolveCanonical s.alias)).filter
+                (fun m => s.emitted.contains m))
+    (commitEndInfo s).firstParent = ks.head? ∧ (commitEndInfo s).kept = ks.length :=
+  Bridge.commitEnd_parents s hne hm
+
+/-- a commit without parent lines reaches the decision as a root, and a root is kept under every pruning setting -/
+theorem commit_end_root_is_kept (o : FOpts) (s : FState) (h : (parentsOf s.segs.reverse).isEmpty = true) :
+    keepDecision o s (commitEndInfo s) = true := by
+  have hr := Bridge.commitEnd_root s h
+  unfold keepDecision
+  rw [hr.1]
+  exact Bridge.root_always_kept _ _ _ _ _ _
+
+/-- with the default pruning options the loop keeps a non-root commit exactly when a change survived or two parents did -/
+theorem loop_keep_decision_default (o : FOpts) (s : FState) (e : CommitEnd) (p mk : Nat)
+    (ho : o.prune = {}) (hp : e.firstParent = some p) (hmk : s.commitMark = some mk) :
+    keepDecision o s e = (s.hasChanges || decide (e.kept ≥ 2)) := by
+  unfold keepDecision
+  rw [ho, hp, hmk]
+  exact Bridge.default_keep_is_sim _ _ _ _ _ _
+
+
+/-- **the alias the loop records for a pruned commit keeps the alias table one level deep** when the commit's mark is
+    fresh (what `git fast-export` guarantees by numbering marks in stream order): so on exporter streams the chain walk of
+    `resolve_canonical_mark` is the single look-up of the simulation at every commit (`canonical_mark_is_one_lookup`) -/
+theorem loop_alias_table_stays_one_level (s : FState) (e : CommitEnd) (hflat : Bridge.Flat s.alias)
+    (hfresh : ∀ om pm, s.commitMark = some om → e.firstParent = some pm →
+      (∀ k v, s.alias.get k = some v → v ≠ om) ∧ om ≠ resolveCanonical s.alias pm) :
+    Bridge.Flat (aliasDropped s e).alias := Bridge.aliasDropped_keeps_flat s e hflat hfresh
+
 end Frrs.C02
